@@ -48,6 +48,17 @@ def audit_axioms(module):
     return res, out, p.returncode
 
 
+def leanchecker(modules):
+    """independent re-check of the compiled .olean files of `modules` (and everything they import) with the
+    toolchain's leanchecker; returns (ok, output tail, seconds)"""
+    t0 = time.time()
+    with LeanLock():
+        p = subprocess.run(["lake", "env", "leanchecker"] + list(modules), cwd=LEAN_DIR, capture_output=True, text=True,
+                           timeout=3600)
+    out = (p.stdout + p.stderr).strip()
+    return p.returncode == 0, out[-1500:], time.time() - t0
+
+
 def grep_forbidden(files):
     """forbidden tokens outside comments in the given Lean files"""
     hits = []
